@@ -3,7 +3,7 @@ sys.path.insert(0, os.path.dirname(os.path.dirname(os.path.abspath(__file__))))
 import coqreplay as _coqreplay
 
 PROP = {
-    "coq": ["C01"],
+    "coq": ["C01", "Findings"],
     "extra": [_coqreplay.replay_cc],
     "exhaustive": False,
     "rule": "Public client calls on a scripted connection (tcp and rtuovertcp framing), peer silent: all 30 read/write calls x "
